@@ -680,3 +680,5 @@ META = {
     "note": "Decides the listed structural clauses, not the behaviour; marginal reach by design (DESIGN section 4).",
     "more": 'Also decided: the reader ends of the inter-stage pipes are closed only where the last stage is known to be over (an alias stage reads through the descriptor in this process). The raw-waitpid helper stores the status it reaped on every reaping path. The chunk queue between the reader thread and the consumer is unbounded (the synchronous branch waits for the stage before it reads). The stripping / hiding patterns contain no unbounded greedy repeat over \'any character\' (regex syntax tree); the reaper records the right part of the wait status.',
 }
+
+META["more"] += ' A pipe end is closed once whatever the schedule of closers (read-and-clear of the descriptor under one lock; obligation shared with C09.R5).'
